@@ -10,7 +10,8 @@ import rulesets
 
 ID = "C04"
 TRUSTED = ["str.upper() per character is supplied to the model as a table probed from the running interpreter",
-           "the Markov level's strings are supplied by a separate run of the real MarkovCracker (exactness of that generator is C10)"]
+           "the Markov level's strings are supplied by a separate run of the real MarkovCracker (exactness of that generator is C10)",
+           "second tie (translator): harness/translate_expand.py (ast -> Gallina, fail closed; accepted subset and what it does not model in its docstring) and the meaning coq/theories/ExpandRt.v gives to Python subscripts, slices, `if limit:` and str methods; print_guess, MarkovCracker, int() and str.upper() of one character are parameters of the generated functions"]
 ASSUMES = ["pre-terminal well-formed (seg_ok): every C_n follows an A_n whose words have n characters, masks have n characters; no empty group"]
 
 CAT = {"M": 0, "C": 1}
@@ -237,6 +238,9 @@ def run(ctx):
             "structures starting with C), create_guesses called with limit None, 1, total-1, total, total+1 and a random inner "
             "value; non-trivial = has an upper-casing mask, two alpha words, a Markov level or more than one guess; distinct by "
             "the groups' values")
+    # second tie to the source (translator): name the broken equality if the build lost ExpandGenProofs
+    import expand_tie
+    corr.append(expand_tie.obligation())
     return {"evaluations": dist["calls"], "distinct_nontrivial": nontrivial, "rule": rule, "samples": samples,
             "corr": corr, "violations": vio, "dist": dist}
 
